@@ -111,7 +111,7 @@ def make_pmodel(m):
 
 def make_bmodel(m):
     if m["kind"] == "bes":
-        return BeamEmissionLine(Line(species_obj(m["el"]), 0, (3, 2)))
+        return BeamEmissionLine(Line(species_obj(m["el"]), 0, tuple(m.get("tr", (3, 2)))))
     el = species_obj(m["el"])
     line = Line(el, m["q"], tuple(m["tr"]))
     shape = _SHAPES[m.get("shape", "gauss")]
@@ -319,8 +319,12 @@ def apply(s, cfg, op):
     elif k == "bm_line":
         i = op["i"]
         m = bc["models"][i]
-        new = dict(m, el=op["el"], q=op["q"], tr=op["tr"])
-        s.bmodels[i].line = Line(species_obj(op["el"]), op["q"], tuple(op["tr"]))
+        if m["kind"] == "bes":
+            new = dict(m, tr=op["tr"])
+            s.bmodels[i].line = Line(species_obj(m["el"]), 0, tuple(op["tr"]))
+        else:
+            new = dict(m, el=op["el"], q=op["q"], tr=op["tr"])
+            s.bmodels[i].line = Line(species_obj(op["el"]), op["q"], tuple(op["tr"]))
         bc["models"][i] = new
     elif k == "pm_gaunt":
         from .mockad import MGaunt
@@ -403,12 +407,18 @@ def apply(s, cfg, op):
 # observations
 # ------------------------------------------------------------------------------------------------
 
-def observe(s, probes):
+# spectral windows an observation may use: the default, a narrower one with fewer bins, the default range with half the
+# bins, the default width shifted (state cached per spectral window must follow the ray that asks)
+WINDOWS = [(WL_MIN, WL_MAX, BINS), (480.0, 640.0, 16), (WL_MIN, WL_MAX, 12), (550.0, 850.0, 24)]
+
+
+def observe(s, probes, win=0):
     """Returns a list of (label, value) where value is a float array or ('exc', ExceptionTypeName)."""
     out = []
+    wl_min, wl_max, nbins = WINDOWS[win]
     for i, (o, d) in enumerate(probes["rays"]):
         try:
-            ray = Ray(Point3D(*o), Vector3D(*d), min_wavelength=WL_MIN, max_wavelength=WL_MAX, bins=BINS)
+            ray = Ray(Point3D(*o), Vector3D(*d), min_wavelength=wl_min, max_wavelength=wl_max, bins=nbins)
             sp = ray.trace(s.world)
             out.append(("trace%d" % i, np.array(sp.samples)))
         except Exception as e:  # noqa: the exception type IS the observation
